@@ -739,3 +739,138 @@ def r03_12(ctx):
                   f"BrownianInterval({cfg.label()}): {bad[0] if bad else ''} ({len(bad)} of {len(raws)} raw queries): values at "
                   f"resolved times are not additive, and in dyadic mode they depend on the history", "increment of the resolved interval")
     ctx.floor("R03.12", 3)
+
+
+# ------------------------------------------------------------------------------------------------ seeded random histories
+def _random_history(rnd, cfg):
+    """6..9 distinct times of [t0, t1] (dyadic, tenths, thirds; on the tolerance grid when there is one), 14..22 queries over
+    them -- among them the three intervals of a few triples s < u < t, repeats, and a zero-length query -- then every distinct
+    query again in another order."""
+    span = cfg.t1 - cfg.t0
+    pool = sorted({cfg.t0 + span * F(k, d) for d in (64, 10, 3) for k in range(d + 1)})
+    pts = sorted(rnd.sample(pool, rnd.randint(6, 9)))
+    if rnd.random() < 0.5:
+        pts = sorted(set(pts) | {cfg.t0, cfg.t1})
+    pts = sorted({q[0] for q in on_grid(cfg, [(p, p) for p in pts])})
+    qs = []
+    triples = []
+    for _ in range(rnd.randint(2, 4)):
+        s, u, t = sorted(rnd.sample(pts, 3))
+        triples.append((s, u, t))
+        order = [(s, t), (s, u), (u, t)]
+        rnd.shuffle(order)
+        qs += order
+    while len(qs) < rnd.randint(14, 22):
+        a, b = sorted(rnd.sample(pts, 2))
+        qs.append((a, b))
+    rnd.shuffle(qs)
+    z = rnd.choice(pts)
+    qs.insert(rnd.randint(0, len(qs)), (z, z))
+    again = list(dict.fromkeys(qs))
+    rnd.shuffle(again)
+    return qs, again, triples
+
+
+def _random_histories(ctx, rule, clauses):
+    import random
+    rep, model = ctx.rep, ctx.model
+    call = _call_fi(model)
+    rep.analysed(call)
+    if skipped(ctx, rule, call):
+        return
+    pool = [c for c in configs(ctx.tier)]
+    n = 3 if light() else (8 if ctx.tier == "quick" else 60)
+    rnd = random.Random(f"random-histories/{ctx.seed}")          # the same histories for the three properties that share them
+    failures, done, asked = {}, 0, 0
+    for i in range(n):
+        cfg = pool[i % len(pool)] if i < len(pool) else rnd.choice(pool)
+        use_U = cfg.levy != "none"
+        qs, again, triples = _random_history(rnd, cfg)
+        shown = f"BrownianInterval({cfg.label()}), history #{i}: " + ", ".join(f"[{a}, {b}]" for a, b in qs)
+        bad = lambda clause, text: failures.setdefault(clause, f"{shown}: {text}")         # noqa: E731
+        out, me, ses = _run(model, cfg, qs + again, use_U)
+        if isinstance(out, SimRaise):
+            bad("raises", f"a query raises {out.exc_name}: {out.message}")
+            continue
+        done += 1
+        asked += len(out)
+        first = {}
+        for k, (q, o) in enumerate(zip(qs + again, out)):
+            if q not in first:
+                first[q] = (k, o)
+            elif "repeatable" in clauses and not rp.same(first[q][1], o):
+                bad("repeatable", f"[{q[0]}, {q[1]}] asked as query no. {first[q][0] + 1} and again as no. {k + 1} returns another value")
+
+        def WU(q):
+            o = first[q][1]
+            return (Rat.lift(o[0]), Rat.lift(o[1])) if isinstance(o, tuple) else (Rat.lift(o), None)
+        if "zero-length" in clauses:
+            for q in first:
+                if q[0] == q[1] and not all(x is None or nf.equal(x, Rat.const(0)) for x in WU(q)):
+                    bad("zero-length", f"the zero-length query at {q[0]} does not return zeros")
+        if "chen" in clauses:
+            for s, u, t in triples:
+                (W, U), (W1, U1), (W2, U2) = WU((s, t)), WU((s, u)), WU((u, t))
+                if not nf.equal(W, W1 + W2):
+                    bad("chen", f"W({s},{t}) != W({s},{u}) + W({u},{t})")
+                elif use_U and not nf.equal(U, U1 + U2 + (t - u) * W1):
+                    bad("chen", f"U({s},{t}) != U({s},{u}) + U({u},{t}) + ({t} - {u}) W({s},{u})")
+        if "law" in clauses:
+            ivs = [q for q in first if q[0] < q[1]]
+            vals = {q: WU(q) for q in ivs}
+            if not all(rp.is_linear(w) and (u is None or rp.is_linear(u)) for w, u in vals.values()):
+                bad("law", "an answer is not a linear form in the unit normals drawn by the tree")
+                continue
+            # coefficient vectors once per answer (rp.cov would reduce both forms again for every pair)
+            vec = {}
+            for q, (w, u) in vals.items():
+                for tag, x in (("W", w), ("U", u)):
+                    if x is not None:
+                        x = nf.reduce_sqrt(x)
+                        vec[q, tag] = {a: nf.coefficient_of(x, a) for a in rp.unit_normals(x)}
+
+            def cov(k1, k2):
+                v1, v2 = vec[k1], vec[k2]
+                tot = Rat.const(0)
+                for a in v1.keys() & v2.keys():
+                    tot = tot + v1[a] * v2[a]
+                return nf.reduce_sqrt(tot)
+            for a_, pi in enumerate(ivs):
+                for pj in ivs[a_:]:
+                    checks = [("Cov(W_i, W_j)", cov((pi, "W"), (pj, "W")), bm_cov_WW(pi, pj))]
+                    if use_U:
+                        checks += [("Cov(U_i, W_j)", cov((pi, "U"), (pj, "W")), bm_cov_UW(pi, pj)),
+                                   ("Cov(U_j, W_i)", cov((pj, "U"), (pi, "W")), bm_cov_UW(pj, pi)),
+                                   ("Cov(U_i, U_j)", cov((pi, "U"), (pj, "U")), bm_cov_UU(pi, pj))]
+                    for name, got, want in checks:
+                        if not nf.equal(got, Rat.const(want)):
+                            bad("law", f"{name} for I_i = [{pi[0]}, {pi[1]}], I_j = [{pj[0]}, {pj[1]}] is `{got}`; Brownian motion has {want}")
+    for clause in ("raises",) + tuple(clauses):
+        rep.check(clause not in failures, rule, astq.loc(call), f"{call.key}::{rule}::{clause}",
+                  f"{failures.get(clause)} (first of the {n} seeded histories that fails this clause)",
+                  f"{done} seeded random histories, {asked} queries")
+    ctx.floor(rule, 1 + len(clauses))
+
+
+def r05_10(ctx):
+    """C05 for seeded random histories: every interval asked again -- later in the history, and once more after the whole history
+    in another order -- returns its first answer."""
+    ctx.rep.rule("R05.10", "replay of the real tree, seeded random histories (random times: dyadic, tenths, thirds; random "
+                           "configuration of cache size, dt hint, tolerance, tree mode, Levy mode): every repeated query "
+                           "returns its first answer; zero-length queries return zeros")
+    _random_histories(ctx, "R05.10", ("repeatable", "zero-length"))
+
+
+def r03_13(ctx):
+    """C03 for the same seeded random histories: W additive and Chen's relation for U over the triples of each history."""
+    ctx.rep.rule("R03.13", "replay, seeded random histories: W(s,t) = W(s,u) + W(u,t) and U(s,t) = U(s,u) + U(u,t) + (t-u) W(s,u) "
+                           "for random triples asked in random order among other queries")
+    _random_histories(ctx, "R03.13", ("chen",))
+
+
+def r04_12(ctx):
+    """C04 for the same seeded random histories: the joint covariance of all first answers (W and U of every distinct interval
+    of the history) is that of Brownian motion and its time integral, from the definition."""
+    ctx.rep.rule("R04.12", "replay, seeded random histories: the covariance of (W, U) over all the distinct intervals of a "
+                           "history equals Brownian motion's, entry by entry (reference from the definition)")
+    _random_histories(ctx, "R04.12", ("law",))
